@@ -279,6 +279,9 @@ def add_post(s0, s, specs, grp, func, fields, result_is=None):
                    new >= s0["ghost.alloc"], new < s["ghost.alloc"], s.sel("CallbackSpec.func", new) == func,
                    s.sel("CallbackSpec.group", new) == grp, *[s.sel("CallbackSpec." + fn, new) == fv for fn, fv in fields.items()])),
         "C02,C15|appended-iff-no-equal-spec-was-there": (n == n0) == dup,
+        "only-the-own-convention-set-is-written": z3.ForAll([o], z3.Implies(
+            o != s0.sel("CallbackSpecList.conventional_specs", specs), z3.Select(s["set.has"], o) == z3.Select(s0["set.has"], o)),
+            patterns=[z3.Select(s["set.has"], o)]),
     }
     return f
 
@@ -487,7 +490,6 @@ CLASSES["Transition"].methods["_copy_with_args"] = C(TRQ + "_copy_with_args")
 CLASSES["State"].props["final"] = INL(STQ + "State.final")
 
 
-@register
 class CopyWithArgs(Contract):
     """Transition._copy_with_args(source=..., event=...) — ASSUMED here: a fresh transition from the given
     source to the same target, same `internal`, with copies of the specs (own contract: TODO)."""
@@ -517,7 +519,7 @@ class AnyOnEventDefined(Contract):
     qualnames = [STQ + "AnyState._on_event_defined"]
     params = [("self", "State"), ("event", "Val"), ("transition", "Transition"), ("states", "list[State]")]
     returns = "None"
-    modifies = CopyWithArgs.modifies + ["list.arr", "list.len"]
+    modifies = None  # set below
     properties = ["C09", "C15"]
 
     def pre(self, s, a):
@@ -526,10 +528,20 @@ class AnyOnEventDefined(Contract):
         st = z3.Select(arr, k)
         tl = s.sel("State.transitions", st)
         tl2 = s.sel("State.transitions", z3.Select(arr, k2))
-        return {"states-valid-with-their-own-transition-lists": z3.And(
+        t_ = a.transition.e
+        arr_, n_ = spec_items(s, s.sel("Transition._specs", t_))
+        k1, k2 = z3.Const("k1!aop", Int), z3.Const("k2!aop", Int)
+        return {"transition-spec-list-wf": spec_list_wf(s, s.sel("Transition._specs", t_)),
+                # Transition(AnyState(), target, internal=True) is rejected by the constructor, so an `any` transition is external
+                "any-transitions-are-external": z3.Not(s.sel("Transition.internal", t_)),
+                "transition-spec-list-has-no-two-equal-specs": z3.ForAll([k1, k2], z3.Implies(z3.And(0 <= k1, k1 < k2, k2 < n_), z3.Not(z3.And(
+                    s.sel("CallbackSpec.func", z3.Select(arr_, k1)) == s.sel("CallbackSpec.func", z3.Select(arr_, k2)),
+                    s.sel("CallbackSpec.group", z3.Select(arr_, k1)) == s.sel("CallbackSpec.group", z3.Select(arr_, k2)))))),
+                "states-valid-with-their-own-transition-lists": z3.And(
             n >= 0, valid_obj(s, a.states.e),
-            z3.ForAll([k], z3.Implies(z3.And(k >= 0, k < n), z3.And(valid_obj(s, st), tl_valid(s, tl),
-                                                                    s.sel("TransitionList.transitions", tl) != a.states.e))),
+            z3.ForAll([k], z3.Implies(z3.And(k >= 0, k < n), z3.And(
+                valid_obj(s, st), tl_valid(s, tl), s.sel("TransitionList.transitions", tl) != a.states.e,
+                s.sel("TransitionList.transitions", tl) != s.sel("CallbackSpecList.items", s.sel("Transition._specs", a.transition.e))))),
             z3.ForAll([k, k2], z3.Implies(z3.And(0 <= k, k < k2, k2 < n), z3.And(
                 z3.Select(arr, k) != z3.Select(arr, k2),
                 s.sel("TransitionList.transitions", tl) != s.sel("TransitionList.transitions", tl2)))))}
@@ -553,6 +565,17 @@ class AnyOnEventDefined(Contract):
                     tn == tn0 + 1, new >= s0["ghost.alloc"], new < s["ghost.alloc"], s.sel("Transition.source", new) == st,
                     s.sel("Transition.target", new) == s0.sel("Transition.target", a.transition.e))), patterns=[z3.Select(arr, k)]),
             "states-list-untouched": z3.And(s.sel("list.len", a.states.e) == n, s.sel("list.arr", a.states.e) == arr),
+            "the-transitions-own-spec-list-untouched": z3.And(
+                s.sel("list.arr", s0.sel("CallbackSpecList.items", s0.sel("Transition._specs", a.transition.e)))
+                == spec_items(s0, s0.sel("Transition._specs", a.transition.e))[0],
+                s.sel("list.len", s0.sel("CallbackSpecList.items", s0.sel("Transition._specs", a.transition.e)))
+                == spec_items(s0, s0.sel("Transition._specs", a.transition.e))[1],
+                spec_list_wf(s, s0.sel("Transition._specs", a.transition.e))),
+            "pre-existing-transitions-untouched": z3.And(*[
+                z3.ForAll([k], z3.Implies(z3.And(k >= 0, k < s0["ghost.alloc"]),
+                                          z3.Select(s["Transition." + f], k) == z3.Select(s0["Transition." + f], k)),
+                          patterns=[z3.Select(s["Transition." + f], k)])
+                for f in ("source", "target", "internal", "_events", "_specs", "validators", "before", "on", "after", "cond")]),
         }
 
     def post(self, s0, s, a, r):
@@ -605,6 +628,13 @@ class GrouperAddAny(Contract):
 
     def assumptions(self):
         return ["SpecListGrouper.add with a non-name argument (callable / list): assumed to append only specs of its own group"]
+
+    def derived(self, s0, s, a, r):
+        o = z3.Const("o!gaas", Int)
+        specs = s0.sel("SpecListGrouper.list", a.self.e)
+        return {"only-the-own-convention-set-is-written": z3.ForAll([o], z3.Implies(
+            o != s0.sel("CallbackSpecList.conventional_specs", specs), z3.Select(s["set.has"], o) == z3.Select(s0["set.has"], o)),
+            patterns=[z3.Select(s["set.has"], o)])}
 
 
 @model
@@ -697,12 +727,31 @@ class TransitionInit(Contract):
         gs = {"validators": "VALIDATOR", "before": "BEFORE", "on": "ON", "after": "AFTER", "cond": "COND"}
         f = {
             "C09|accepted-only-if-internal-implies-self-transition": z3.Implies(a.internal.e, a.source.e == a.target.e),
+            "pre-existing-lists-untouched": z3.ForAll([z3.Const("o!til", Int)], z3.Implies(
+                z3.And(z3.Const("o!til", Int) >= 0, z3.Const("o!til", Int) < s0["ghost.alloc"]), z3.And(
+                    z3.Select(s["list.arr"], z3.Const("o!til", Int)) == z3.Select(s0["list.arr"], z3.Const("o!til", Int)),
+                    z3.Select(s["list.len"], z3.Const("o!til", Int)) == z3.Select(s0["list.len"], z3.Const("o!til", Int)))),
+                patterns=[z3.Select(s["list.arr"], z3.Const("o!til", Int)), z3.Select(s["list.len"], z3.Const("o!til", Int))]),
+            "C15|no-callbacks-given-means-an-empty-spec-list": z3.Implies(
+                z3.And(*[getattr(a, nm).e == NONE for nm in ("validators", "cond", "unless", "on", "before", "after")]), n == 0),
+            "C15|own-spec-list-is-fresh-and-well-formed": z3.And(
+                specs >= s0["ghost.alloc"], s.sel("CallbackSpecList.items", specs) >= s0["ghost.alloc"],
+                s.sel("CallbackSpecList.conventional_specs", specs) >= s0["ghost.alloc"], spec_list_wf(s, specs)),
+            "pre-existing-sets-untouched": z3.ForAll([z3.Const("o!tis", Int)], z3.Implies(
+                z3.And(z3.Const("o!tis", Int) >= 0, z3.Const("o!tis", Int) < s0["ghost.alloc"]),
+                z3.Select(s["set.has"], z3.Const("o!tis", Int)) == z3.Select(s0["set.has"], z3.Const("o!tis", Int))),
+                patterns=[z3.Select(s["set.has"], z3.Const("o!tis", Int))]),
             "C15|source-target-internal-stored": z3.And(s.sel("Transition.source", t) == a.source.e,
                                                         s.sel("Transition.target", t) == a.target.e, s.sel("Transition.internal", t) == a.internal.e),
             "C08,C15|guards-expect-True-for-cond-and-False-for-unless": z3.ForAll([k], z3.Implies(
                 z3.And(k >= 0, k < n, s.sel("CallbackSpec.group", sp) == G("COND")),
                 z3.Or(s.sel("CallbackSpec.expected_value", sp) == TRUE_OBJ, s.sel("CallbackSpec.expected_value", sp) == FALSE_OBJ))),
         }
+        o = z3.Const("o!tio", Int)
+        f["only-this-transitions-fields-are-written"] = z3.And(*[
+            z3.ForAll([o], z3.Implies(o != t, z3.Select(s["Transition." + fld], o) == z3.Select(s0["Transition." + fld], o)),
+                      patterns=[z3.Select(s["Transition." + fld], o)])
+            for fld in ("source", "target", "internal", "_events", "_specs", "validators", "before", "on", "after", "cond")])
         for attr, gname in gs.items():
             g = s.sel("Transition." + attr, t)
             f[f"C15|{attr}-is-the-{gname}-grouper-of-the-own-spec-list"] = z3.And(
@@ -711,3 +760,175 @@ class TransitionInit(Contract):
 
     def exc_post(self, s0, s, a, x):
         return {"C09|rejected-only-if-internal-and-not-a-self-transition": z3.And(a.internal.e, a.source.e != a.target.e)}
+
+
+# =========================================================================== _copy_with_args (real body)
+def ctor_via_contract(clsname, qual):
+    def ctor(ex, path, ca, node):
+        obj = path.alloc(clsname, clsname.lower())
+        outs = ex.apply_contract(path, CONTRACTS[qual], obj, ca, clsname + ".__init__", node)
+        return [(p, r if isinstance(r, Raise) else obj) for p, r in outs]
+    return ctor
+
+
+TransitionInit.defaults = {"event": NoneV(), "internal": B(z3.BoolVal(False)), "validators": NoneV(), "cond": NoneV(),
+                           "unless": NoneV(), "on": NoneV(), "before": NoneV(), "after": NoneV()}
+CLASSES["Transition"].ctor = ctor_via_contract("Transition", TRQ + "__init__")
+CLASSES["Transition"].props["event"] = CLASSES["Transition"].props.get("event", C("diagram:transition.event"))
+
+
+@builtin("deepcopy")
+def b_deepcopy(ex, path, ca, node):
+    """copy.deepcopy(<CallbackSpec>) — ASSUMED: a fresh spec with the same field values (the fields are
+    names, enum members, bound methods and flags, which deepcopy keeps or copies by value)."""
+    v = ca.pos[0]
+    if not (isinstance(v, O) and v.cls == "CallbackSpec"):
+        raise Unsupported("deepcopy of a non-spec")
+    c = path.alloc("CallbackSpec", "speccopy")
+    for f in ("func", "group", "cond", "priority", "is_convention", "expected_value"):
+        path.store("CallbackSpec." + f, c.e, path.sel("CallbackSpec." + f, v.e))
+    return [(path, c)]
+
+
+@register
+class SpecListAddSpec(Contract):
+    """CallbackSpecList.add(<a CallbackSpec>, group): the spec object itself is appended unless an equal
+    one (same func and group) is already there."""
+
+    qualnames = [CBQ + "CallbackSpecList.add#spec"]
+    params = [("self", "CallbackSpecList"), ("callbacks", "CallbackSpec"), ("group", "CallbackGroup")]
+    returns = "CallbackSpecList"
+    modifies = ["list.arr", "list.len", "set.has"]
+    trusted = True  # body: same code path as add/_add (proved for names); the isinstance branch is assumed
+
+    def post(self, s0, s, a, r):
+        specs, sp = a.self.e, a.callbacks.e
+        lst = s0.sel("CallbackSpecList.items", specs)
+        arr0, n0 = spec_items(s0, specs)
+        arr, n = spec_items(s, specs)
+        dup = has_equal_spec(s0, specs, s0.sel("CallbackSpec.func", sp), s0.sel("CallbackSpec.group", sp))
+        k, o = z3.Const("k!sas", Int), z3.Const("o!sas", Int)
+        return {
+            "returns-self": r.e == specs,
+            "appended-unless-equal-exists": z3.Or(
+                z3.And(dup, n == n0, arr == arr0),
+                z3.And(z3.Not(dup), n == n0 + 1, z3.Select(arr, n0) == sp,
+                       z3.ForAll([k], z3.Implies(z3.And(k >= 0, k < n0), z3.Select(arr, k) == z3.Select(arr0, k)), patterns=[z3.Select(arr, k)]))),
+            "other-lists-untouched": z3.ForAll([o], z3.Implies(o != lst, z3.And(
+                z3.Select(s["list.arr"], o) == z3.Select(s0["list.arr"], o), z3.Select(s["list.len"], o) == z3.Select(s0["list.len"], o))),
+                patterns=[z3.Select(s["list.arr"], o), z3.Select(s["list.len"], o)]),
+            "only-the-own-convention-set-is-written": z3.ForAll([o], z3.Implies(
+                o != s0.sel("CallbackSpecList.conventional_specs", specs), z3.Select(s["set.has"], o) == z3.Select(s0["set.has"], o)),
+                patterns=[z3.Select(s["set.has"], o)]),
+        }
+
+    def assumptions(self):
+        return ["CallbackSpecList.add(<CallbackSpec>, group): assumed (the isinstance branch of _add)"]
+
+
+@model
+def speclist_add_dispatch(ex, path, recv, ca, node):
+    a0 = ca.pos[0] if ca.pos else None
+    q = CBQ + ("CallbackSpecList.add#spec" if isinstance(a0, O) and a0.cls == "CallbackSpec" else "CallbackSpecList.add")
+    return ex.apply_contract(path, CONTRACTS[q], recv, ca, "CallbackSpecList.add", node)
+
+
+CLASSES["CallbackSpecList"].methods["add"] = speclist_add_dispatch
+CONTRACTS.pop(TRQ + "_copy_with_args", None)
+
+
+def old_untouched(s0, s):
+    o = z3.Const("o!ou", Int)
+    al0 = s0["ghost.alloc"]
+    keys = ["list.arr", "list.len", "set.has"] + ["Transition." + f for f in (
+        "source", "target", "internal", "_events", "_specs", "validators", "before", "on", "after", "cond")]
+    return z3.And(*[z3.ForAll([o], z3.Implies(z3.And(o >= 0, o < al0), z3.Select(s[k], o) == z3.Select(s0[k], o)),
+                              patterns=[z3.Select(s[k], o)]) for k in keys])
+
+
+@register
+class CopyWithArgsReal(Contract):
+    """Transition._copy_with_args(source=..., event=...) (C08, C09, C15): a fresh transition with the
+    given source, the same target and `internal`, whose spec list holds, position by position, copies of
+    this transition's specs with the SAME func, group, cond, priority, is_convention and expected_value
+    (so an `unless` guard stays an `unless` guard in the copy that from_.any() makes)."""
+
+    qualnames = [TRQ + "_copy_with_args"]
+    params = [("self", "Transition"), ("**kwargs", "dict[str,Val]")]
+    returns = "Transition"
+    raises = True
+    exc_classes = ["InvalidDefinition"]
+    modifies = [m for m in TransitionInit.modifies if m not in ("dict.has+", "dict.val+")] + ["dict.has", "dict.val"]
+    properties = ["C08", "C09", "C15"]
+
+    def pre(self, s, a):
+        t = a.self.e
+        has = s.sel("dict.has", a.kwargs.e)
+        k = z3.Const("k!cwp", Str)
+        allowed = z3.Or(*[k == z3.StringVal(n) for n in ("source", "target", "event", "internal")])
+        arr_, n_ = spec_items(s, s.sel("Transition._specs", t))
+        k1, k2 = z3.Const("k1!cwp", Int), z3.Const("k2!cwp", Int)
+        return {"own-spec-list-wf": spec_list_wf(s, s.sel("Transition._specs", t)),
+                # invariant of every spec list (established by _add: appended iff no equal spec was there)
+                "own-spec-list-has-no-two-equal-specs": z3.ForAll([k1, k2], z3.Implies(z3.And(0 <= k1, k1 < k2, k2 < n_), z3.Not(z3.And(
+                    s.sel("CallbackSpec.func", z3.Select(arr_, k1)) == s.sel("CallbackSpec.func", z3.Select(arr_, k2)),
+                    s.sel("CallbackSpec.group", z3.Select(arr_, k1)) == s.sel("CallbackSpec.group", z3.Select(arr_, k2)))))),
+                "kwargs-only-override-source-target-event-internal": z3.ForAll([k], z3.Implies(z3.Select(has, k), allowed)),
+                "kwargs-valid": valid_obj(s, a.kwargs.e)}
+
+    def _copied(self, s0, s, a, new, upto):
+        arr0, n0 = spec_items(s0, s0.sel("Transition._specs", a.self.e))
+        arr, n = spec_items(s, s.sel("Transition._specs", new))
+        k = z3.Const("k!cwc", Int)
+        old, cp = z3.Select(arr0, k), z3.Select(arr, k)
+        return {"C08,C15|one-copy-per-spec-so-far": n == upto,
+                "C08,C15|copies-carry-every-field": z3.ForAll([k], z3.Implies(z3.And(k >= 0, k < upto), z3.And(
+                    cp >= s0["ghost.alloc"], cp < s["ghost.alloc"],
+                    *[s.sel("CallbackSpec." + f, cp) == s0.sel("CallbackSpec." + f, old)
+                      for f in ("func", "group", "cond", "priority", "is_convention", "expected_value")])), patterns=[z3.Select(arr, k)])}
+
+    def post(self, s0, s, a, r):
+        t = a.self.e
+        has, val = s0.sel("dict.has", a.kwargs.e), s0.sel("dict.val", a.kwargs.e)
+        g = lambda n, d: z3.If(z3.Select(has, z3.StringVal(n)), z3.Select(val, z3.StringVal(n)), d)  # noqa: E731
+        n0 = spec_items(s0, s0.sel("Transition._specs", t))[1]
+        return {
+            "C15|fresh-transition-with-the-requested-source-and-target": z3.And(
+                r.e >= s0["ghost.alloc"], r.e < s["ghost.alloc"], s.sel("Transition.source", r) == g("source", s0.sel("Transition.source", t)),
+                s.sel("Transition.target", r) == g("target", s0.sel("Transition.target", t))),
+            **self._copied(s0, s, a, r.e, n0),
+            "pre-existing-lists-sets-and-specs-untouched": old_untouched(s0, s),
+        }
+
+    def exc_post(self, s0, s, a, x):
+        t = a.self.e
+        has, val = s0.sel("dict.has", a.kwargs.e), s0.sel("dict.val", a.kwargs.e)
+        g = lambda n, d: z3.If(z3.Select(has, z3.StringVal(n)), z3.Select(val, z3.StringVal(n)), d)  # noqa: E731
+        from pyvc.core import boxb
+        internal = truthy(g("internal", boxb(s0.sel("Transition.internal", t))))
+        return {"C09|rejected-only-if-the-copy-would-be-internal-but-not-a-self-transition": z3.And(
+            internal, g("source", s0.sel("Transition.source", t)) != g("target", s0.sel("Transition.target", t)))}
+
+    def _inv(self, s0, s, a, l):
+        new = l.new_transition.e
+        specs = s.sel("Transition._specs", new)
+        return {**self._copied(s0, s, a, new, l.i),
+                "new-transition-fresh": z3.And(new >= s0["ghost.alloc"], new < s["ghost.alloc"],
+                                               s.sel("CallbackSpecList.items", specs) >= s0["ghost.alloc"],
+                                               s.sel("CallbackSpecList.conventional_specs", specs) >= s0["ghost.alloc"]),
+                "new-spec-list-wf": spec_list_wf(s, specs),
+                "pre-existing-lists-sets-untouched": old_untouched(s0, s),
+                "own-specs-untouched": z3.And(
+                    s.sel("list.arr", s0.sel("CallbackSpecList.items", s0.sel("Transition._specs", a.self.e)))
+                    == spec_items(s0, s0.sel("Transition._specs", a.self.e))[0],
+                    s.sel("list.len", s0.sel("CallbackSpecList.items", s0.sel("Transition._specs", a.self.e)))
+                    == spec_items(s0, s0.sel("Transition._specs", a.self.e))[1])}
+
+    @property
+    def loops(self):
+        return {0: LoopSpec(self._inv, modifies=["list.arr", "list.len", "set.has", "CallbackSpec.func+", "CallbackSpec.group+",
+                                                 "CallbackSpec.cond+", "CallbackSpec.priority+", "CallbackSpec.is_convention+",
+                                                 "CallbackSpec.expected_value+"])}
+
+
+AnyOnEventDefined.modifies = CopyWithArgsReal.modifies
